@@ -276,6 +276,10 @@ def _degenerate(rng, typ):
 def run(ctx):
     install()
     rng = ctx.rng
+    from rv.props import concurrent_jobs
+
+    concurrent_jobs.run_some(ctx, "C05")        # the same calls from a thread pool (rv/core/threads.py)
+    ctx.must_monitors.append("concurrent_calls")
     ctx.rule = ("geometry specs of all nine types (realistic, dyadic, domain-edge, degenerate); every named position per geometry; "
                 "non-trivial = non-zero extent on at least one axis; distinct = distinct geometry spec")
     ctx.assumptions += ["bounds / features / anchors judged for every geometry except invalid polygons whose holes leave the shell",
